@@ -298,7 +298,15 @@ fn sweep<T: Sc>(ctx: &Ctx, sc: &Scen, depth: usize, only: Option<(Phase, Vec<usi
             s.inc("baseline_traces");
             s.add("states", 1);
         });
-        let n = base.calls;
+        // a fit that needs more than 600 model calls is not expected on any tree that satisfies the properties (patience is
+        // 100 x (P+1)); beyond that the fault index is capped and the cap is reported (evidence: caps_hit, exhaustive = false)
+        let n = base.calls.min(600);
+        if base.calls > 600 {
+            ctx.with(|s| {
+                s.inc("caps_hit");
+                s.notes.push(format!("fault sweep capped at call index 600 of {} ({:?})", base.calls, ph));
+            });
+        }
         for k in 0..n {
             for mode in [FaultMode::Transient, FaultMode::Persistent] {
                 for ofs in [OnFailedSet::Keep, OnFailedSet::Store] {
